@@ -446,11 +446,101 @@ static void sc_check_mutcb(trace_t *t)
 	jwt_checker_free(c);
 }
 
+/* keyring maintenance: load a set, look at every accessor, free by index / bad / all, reload, error_clear */
+static void sc_ring_ops(trace_t *t)
+{
+	jwk_set_t *s = jwks_create_strn(J_SET3, strlen(J_SET3));
+	rec_set(t, "jwks_create_strn", s, 0);
+	if (!s)
+		return;
+	rec(t, "count", 0, "count=%zu error_any=%d", jwks_item_count(s), jwks_error_any(s));
+	int fr = jwks_item_free(s, 1);
+	rec(t, "free", 0, "free(1) -> %d, count %zu, error_any %d", fr, jwks_item_count(s), jwks_error_any(s));
+	jwk_set_t *s2 = jwks_load(s, "{\"keys\":[");
+	rec(t, "load", s2 == NULL || jwks_error(s) != 0, "load(non-JSON) -> %s seterr=%d msg-nonempty=%d", s2 ? "set" : "NULL", jwks_error(s), jwks_error_msg(s)[0] != 0);
+	jwks_error_clear(s);
+	size_t had = jwks_item_count(s);
+	jwk_set_t *s3 = jwks_load(s, J_OKP_PUB);
+	rec_set(t, "jwks_load(OKP public)", s3, had);
+	jwk_item_t *f = jwks_find_bykid(s, "d1");
+	rec(t, "find", 0, "find_bykid(d1) -> %s", f ? "item" : "NULL");
+	if (f) {
+		jwt_checker_t *c = jwt_checker_new();
+		if (c) {
+			int sr = jwt_checker_setkey(c, JWT_ALG_NONE, f);
+			int r = sr ? -1 : jwt_checker_verify(c, T_ED);
+			rec(t, "verify", r != 0, "verify(T_ED) with the found key -> %d", r);
+			jwt_checker_free(c);
+		} else
+			rec(t, "new", 1, "checker_new -> NULL");
+	}
+	rec(t, "free", 0, "free_all -> %d", jwks_item_free_all(s));
+	jwks_free(s);
+}
+
+/* builder bookkeeping calls that allocate little or nothing, and header/claim getters and deleters */
+static void sc_build_misc(trace_t *t)
+{
+	jwt_builder_t *b = jwt_builder_new();
+	rec(t, "new", b == NULL, "builder_new -> %s", b ? "builder" : "NULL");
+	if (!b)
+		return;
+	jwt_value_t v;
+	int r;
+	jwt_set_SET_STR(&v, "kid", "k1");
+	r = jwt_builder_header_set(b, &v);
+	rec(t, "set", r != 0, "header_set(kid) -> %d", r);
+	jwt_set_SET_STR(&v, "kid", "k2");
+	r = jwt_builder_header_set(b, &v);
+	rec(t, "set", r != 0, "header_set(kid) again without replace -> %d", r);
+	v.replace = 1;
+	r = jwt_builder_header_set(b, &v);
+	rec(t, "set", r != 0, "header_set(kid) with replace -> %d", r);
+	jwt_set_GET_STR(&v, "kid");
+	r = jwt_builder_header_get(b, &v);
+	rec(t, "get", r != 0, "header_get(kid) -> %d %s", r, r == 0 ? v.str_val : "");
+	char js[] = "{\"x5c\":[\"a\",\"b\"],\"crit\":[\"x\"]}";
+	jwt_set_SET_JSON(&v, NULL, js);
+	v.replace = 1;
+	r = jwt_builder_header_set(b, &v);
+	rec(t, "set", r != 0, "header_set(json merge replace) -> %d", r);
+	jwt_set_GET_JSON(&v, "x5c");
+	r = jwt_builder_header_get(b, &v);
+	rec(t, "get", r != 0, "header_get(x5c json) -> %d %s", r, r == 0 ? v.json_val : "");
+	if (r == 0)
+		vf_lfree(v.json_val);
+	jwt_set_GET_JSON(&v, NULL);
+	v.pretty = 1;
+	r = jwt_builder_header_get(b, &v);
+	rec(t, "get", r != 0, "header_get(all, pretty) -> %d %s", r, r == 0 ? v.json_val : "");
+	if (r == 0)
+		vf_lfree(v.json_val);
+	r = jwt_builder_header_del(b, "crit");
+	rec(t, "del", r != 0, "header_del(crit) -> %d", r);
+	r = jwt_builder_setkey(b, JWT_ALG_HS256, jwks_item_get(ks_oct, 0));
+	rec(t, "config", r != 0, "setkey(HS256) -> %d", r);
+	r = jwt_builder_setkey(b, JWT_ALG_RS256, jwks_item_get(ks_oct, 0));
+	rec(t, "config", 0, "setkey(RS256, key alg HS256) -> %d flag %d", r, jwt_builder_error(b));
+	jwt_builder_error_clear(b);
+	jwt_builder_enable_iat(b, 0);
+	char *tok = jwt_builder_generate(b);
+	rec_token(t, "generate(no iat)", tok);
+	vf_lfree(tok);
+	r = jwt_builder_setkey(b, JWT_ALG_NONE, NULL);
+	rec(t, "config", r != 0, "setkey(none,NULL) -> %d", r);
+	tok = jwt_builder_generate(b);
+	rec_token(t, "generate(unsigned)", tok);
+	vf_lfree(tok);
+	jwt_builder_free(b);
+}
+
 static struct {
 	const char *name;
 	scen_fn fn;
 	int crypto;   /* depends on the provider: run under both */
 } SCEN[] = {
+	{ "keyring: create_strn, count, free(1), non-JSON load, error_clear, append, find, verify, free_all", sc_ring_ops, 1 },
+	{ "builder: header set/replace/get/del, JSON merge, pretty dump, setkey refusals, generate signed and unsigned", sc_build_misc, 1 },
 	{ "load oct JWK and verify with it", sc_load_oct, 0 },
 	{ "load RSA public JWK", sc_load_rsa_pub, 0 },
 	{ "load RSA private JWK", sc_load_rsa_priv, 0 },
